@@ -598,7 +598,7 @@ def names_in_term(body, term):
 # typestate flow: forward exploration of (block, state) with constant-flag pruning
 # ---------------------------------------------------------------------------
 
-def flow_states(body, facts, init, on_call, on_edge, max_configs=200000):
+def flow_states(body, facts, init, on_call, on_edge, max_configs=200000, on_block=None):
     """Forward typestate exploration.  Configurations are (block, state, env)
     where env holds the bool locals assigned a constant on the path (the
     lowering of `matches!`, `&&`, `||` sets a temporary to true/false and
@@ -626,6 +626,9 @@ def flow_states(body, facts, init, on_call, on_edge, max_configs=200000):
         at.setdefault(bb, set()).add(st)
         env = dict(envf)
         blk = body.blocks[bb]
+        if on_block is not None:
+            # state change by the block's own statements (seen after the entry state was recorded)
+            st = on_block(bb, st)
         for s in blk["s"]:
             if s[0] == "=" and len(s[1]) == 1:
                 rv = s[2]
